@@ -43,17 +43,19 @@ def impl_tables(pairdrv_exe, nz, y0, y1, chunk=25, mode='tables'):
     return obs
 
 
-def run(model, obs, work, tag='', timeout=3000, which='ExtProc', invariants=None):
+def run(model, obs, work, tag='', timeout=3000, which='ExtProc', invariants=None, wall=None):
     mp = os.path.join(work, '%s_model%s.json' % (which, tag))
     op = os.path.join(work, '%s_obs%s.json' % (which, tag))
     json.dump(model, open(mp, 'w'))
     json.dump(dict(obs, __none__={}), open(op, 'w'))
     cfg = which + '_MC.cfg'
+    wp = os.path.join(work, '%s_wall%s.json' % (which, tag))
+    json.dump(dict(wall or {}, __none__={}), open(wp, 'w'))
     if invariants is not None:
         # a chosen subset of the design invariants (binding and output are always on)
         cfg = os.path.join(work, '%s_MC%s.cfg' % (which, tag))
-        open(cfg, 'w').write('SPECIFICATION Spec\n' + ''.join('INVARIANT %s\n' % i for i in list(invariants) + ['Judge', 'Done'] + (['Hazards'] if which == 'ExtProc' else [])) + 'CHECK_DEADLOCK FALSE\n')
-    res = common.run_tlc(which + '_MC', cfg, env={which.upper() + '_MODEL': mp, which.upper() + '_OBS': op}, timeout=timeout)
+        open(cfg, 'w').write('SPECIFICATION Spec\n' + ''.join('INVARIANT %s\n' % i for i in list(invariants) + ['Judge', 'Done', 'WallJudge'] + (['Hazards'] if which == 'ExtProc' else [])) + 'CHECK_DEADLOCK FALSE\n')
+    res = common.run_tlc(which + '_MC', cfg, env={which.upper() + '_MODEL': mp, which.upper() + '_OBS': op, which.upper() + '_WALL': wp}, timeout=timeout)
     bad, pieces, stale = [], {}, []
     for v in common.tlc_prints(res.out):
         if isinstance(v, dict):
@@ -63,6 +65,8 @@ def run(model, obs, work, tag='', timeout=3000, which='ExtProc', invariants=None
                 pieces[v['zone']] = v['pieces']
             elif 'stale' in v:
                 stale.append((v['stale'], v['year']))
+            elif 'wbad' in v:
+                bad.append(v)
     return res, bad, pieces, stale
 
 
@@ -100,7 +104,11 @@ def check_tables(chk, label, d, obs, lines, work, y0=2000, y1=2049, ylast=2050, 
     names = [z['name'] for z in model['zones']]
     if res.ok and set(pieces) != set(names):
         raise common.MachineryError('%s_MC finished %d zones of %d' % (which, len(pieces), len(names)))
-    for b in bad:
+    for b in [x for x in bad if 'wbad' in x]:
+        chk.violation('%s:%s:%d:wall-algorithm' % (label, b['wbad'], b['year']),
+                      'forComponents on %s, wall time day %s sec %s (local year %d): the code answers [day, sec, shift, offset, err] = %s, the %s.tla algorithm gives %s (%d piece(s) of that year differ)' % (
+                          b['wbad'], b['at'][0], b['at'][1], b['year'], b['impl'], which, b['model'], b['nbad']), b)
+    for b in [x for x in bad if 'bad' in x]:
         m, i = b['model'], b['impl']
         keys = [k for k in ('filled', 'nm', 'hw', 'dropped') if k in m and int(m[k]) != int(i[k])]
         k = next((j for j in range(min(len(m['rows']), len(i['rows']))) if m['rows'][j] != i['rows'][j]), min(len(m['rows']), len(i['rows'])))
@@ -131,3 +139,53 @@ def check_tables(chk, label, d, obs, lines, work, y0=2000, y1=2049, ylast=2050, 
     lw = which.lower()
     chk.add(**{lw + '_states': res.distinct, lw + '_tables_bound_to_real_processor': nty, lw + '_zones_judged_by_tzsem': nsem})
     return res, bad, pieces
+
+
+def _days(y, m, d):
+    import datetime
+    return (datetime.date(y, m, d) - datetime.date(2000, 1, 1)).days
+
+
+def split_windows_by_year(wobs):
+    """{zone: [{w0, w1, pieces}]} -> {zone: {year: [{w0, w1, pieces}]}}: windows are cut at every Jan 1 00:00 on the local
+    clock (a piece that runs across the cut continues, with its value, as the first piece of the next part)"""
+    import datetime
+    out = {}
+    for z, wins in wobs.items():
+        per = {}
+        for w in wins:
+            a, b = tuple(w['w0']), tuple(w['w1'])
+            ps = [list(p) for p in w['pieces']]
+            ya = (datetime.date(2000, 1, 1) + datetime.timedelta(days=a[0])).year
+            last = (b[0], b[1] - 1) if b[1] > 0 else (b[0] - 1, 86399)
+            yb = (datetime.date(2000, 1, 1) + datetime.timedelta(days=last[0])).year
+            for y in range(ya, yb + 1):
+                lo = max(a, (_days(y, 1, 1), 0))
+                hi = min(b, (_days(y + 1, 1, 1), 0))
+                part = [p for p in ps if lo <= (p[0], p[1]) < hi]
+                before = [p for p in ps if (p[0], p[1]) < lo]
+                if (not part or (part[0][0], part[0][1]) != lo) and before:
+                    part = [[lo[0], lo[1]] + before[-1][2:]] + part
+                if part:
+                    per.setdefault(str(y), []).append({'w0': list(lo), 'w1': list(hi), 'pieces': part})
+        out[z] = per
+    return out
+
+
+def check_wall_algorithm(chk, label, scope, wobs, work):
+    """the recorded resolutions of forComponents judged against the algorithm-level specification (exact equality)"""
+    which = SPECS[scope][0]
+    dd = common.build_binary('dbdump', ['dbdump.cpp'], 'opt')
+    d = dump_tables(dd, scope)
+    model = model_from_dbdump(d, 2000, 2049, only=set(wobs), ylast=2050)
+    wall = split_windows_by_year(wobs)
+    res, bad, pieces, stale = run(model, {}, work, which=which, tag='-wall', invariants=[], wall=wall, timeout=6000)
+    if not res.ok:
+        raise common.MachineryError('%s_MC (wall) failed: %s' % (which, res.out[-1500:]))
+    for b in [x for x in bad if 'wbad' in x]:
+        chk.violation('%s:%s:%d:wall-algorithm' % (label, b['wbad'], b['year']),
+                      'forComponents on %s, wall time day %s sec %s (local year %d): the code answers [day, sec, shift, offset, err] = %s, the %s.tla algorithm gives %s (%d piece(s) of that year differ)' % (
+                          b['wbad'], b['at'][0], b['at'][1], b['year'], b['impl'], which, b['model'], b['nbad']), b)
+    nw = sum(len(v) for per in wall.values() for v in per.values())
+    chk.add(**{'wall_windows_judged_by_%s' % which.lower(): nw})
+    return res
